@@ -60,6 +60,24 @@ func c13(c *Ctx) {
 			c.check(okk, r, fmt.Sprintf("%s:commit#%d:error-propagated", fnName(f), i), c.pos(cm.Pos()), d, "a failed COMMIT is reported as success: "+d)
 		}
 	}
+	// a failed COMMIT is reported to whoever asked for it: the error of every SQLTx.Commit call is consumed
+	// (returned, tested with the non-nil edge leaving with an error, or recorded) wherever the call is made
+	r6 := "C13.6/commit-outcome-reported"
+	nc := 0
+	for _, in := range c.callSites(callTo(sqlTxT + "Commit")) {
+		if _, isCall := in.(*ssa.Call); !isCall {
+			// `defer tx.Commit()` / `go tx.Commit()` cannot report anything
+			c.fail(r6, "commit:in:"+fnName(in.Parent())+":deferred", c.pos(in.Pos()), "the outcome of a deferred COMMIT cannot be reported")
+			continue
+		}
+		nc++
+		okk, d := errHandled(in)
+		c.check(okk, r6, fmt.Sprintf("commit:in:%s#%d", fnName(in.Parent()), idxAmong(in, callTo(sqlTxT+"Commit"))), c.pos(in.Pos()), d,
+			"the result of COMMIT is dropped: a failed commit (read conflict, constraint) is indistinguishable from success: "+d)
+	}
+	if nc < 3 {
+		c.undecided(r6, "floor", fmt.Sprintf("only %d SQLTx.Commit call sites found", nc))
+	}
 	// session layer
 	if f := c.fn("pkg/server/sessions/internal/transactions.(*transaction).Rollback"); f != nil {
 		c.ruleMustPass(r, f, nil, "sqlTx.Cancel", callTo(sqlTxT+"Cancel"), nil, false)
@@ -192,4 +210,14 @@ func c13CatalogCache(c *Ctx, r string) {
 			c.check(hasFieldSuffix(a, "openCatalogVersion"), r, fnName(f)+":publishes-with-open-version", c.pos(in.Pos()), "publishes with the version observed when the tx opened", "tryPopulateCatalogCache is given "+a)
 		}
 	}
+}
+
+// idxAmong: ordinal of `in` among the sites of its function matching p (position-free construct key)
+func idxAmong(in ssa.Instruction, p sitePred) int {
+	for i, x := range sites(in.Parent(), p) {
+		if x == in {
+			return i
+		}
+	}
+	return -1
 }
